@@ -77,7 +77,9 @@ func Preview(sql string) int {
 	isNotLetter := func(r rune) bool { return !unicode.IsLetter(r) }
 	firstWord := strings.TrimLeftFunc(trimmed, isNotLetter)
 
-	if end := strings.IndexFunc(firstWord, unicode.IsSpace); end != -1 {
+	// the first word ends at the first non-letter: white space, but also a comment glued to the
+	// keyword ("delete/**/from t"), a parenthesis, a quote ...
+	if end := strings.IndexFunc(firstWord, isNotLetter); end != -1 {
 		firstWord = firstWord[:end]
 	}
 	// Comparison is done in order of priority.
